@@ -202,7 +202,7 @@ func itemizeMain(args []string) error {
 	seed := seedFromEnv()
 	rng := rand.New(rand.NewSource(seed*523 + 7))
 	classAlphabet := []rune{'a', 'א', 'ع', '1', ' ', '(', ')', '[', '漢', 0x0301, 0x200D, 'я'}
-	longAlphabet := []rune{'a', 'b', 'א', 'ב', 'ع', 'س', '1', '2', ' ', '(', ')', '[', ']', '漢', 'あ', 0x0301, 0x200D, '\n', '.', ',', 'я', 0x0660, 0x202B, 0x202C, '“', '”', 0x1100, 0x30FC, '{', '}', 0x2028}
+	longAlphabet := []rune{'a', 'b', 'א', 'ב', 'ع', 'س', '1', '2', ' ', '(', ')', '[', ']', '漢', 'あ', 0x0301, 0x200D, '\n', '.', ',', 'я', 0x0660, 0x202B, 0x202C, '“', '”', 0x1100, 0x30FC, '{', '}', 0x2028, 0x202E, 0x202D, 0x2067, 0x2066, 0x2069, 0x202A}
 	side := func(b bool) di.Direction { d := di.DirectionTTB; d.SetSideways(b); return d }
 	dirs := []di.Direction{di.DirectionLTR, di.DirectionRTL, di.DirectionTTB, di.DirectionBTT, side(true), side(false)}
 	langs := []language.Language{"", "en", "fr", "he", "xx-unknown", "ar", "ko"}
